@@ -1253,6 +1253,16 @@ impl Server {
         false
     }
 
+    /// The connection still carries state of the client it last served: an open
+    /// transaction, a COPY in progress, an unread reply, or session state that
+    /// `checkin_cleanup` has not reset. It must not be handed to another client.
+    pub fn is_dirty(&self) -> bool {
+        self.in_transaction
+            || self.in_copy_mode
+            || self.data_available
+            || (self.cleanup_connections && self.cleanup_state.needs_cleanup())
+    }
+
     /// Get server startup information to forward it to the client.
     pub fn server_parameters(&self) -> ServerParameters {
         self.server_parameters.clone()
